@@ -114,7 +114,7 @@ CONTRACTS.update({
             'fixed-value-recorded': ('property', 'implies(value is not None, self.all_des_vars.index(des_var) in self._fixed_values and self._fixed_values[self.all_des_vars.index(des_var)] == value)'),
             'unfix-removes-entry': ('property', 'implies(value is None, not (self.all_des_vars.index(des_var) in self._fixed_values))'),
             'mask-refreshed-for-the-new-fixed-values': ('property', 'self._comb_fixed_mask == MASKOF(self._fixed_values, self._sel_choice_idx_map)'),
-            'other-entries-unchanged': ('property', "forall('j:Int', implies(j != self.all_des_vars.index(des_var), (j in self._fixed_values) == (j in old(self._fixed_values)) and self._fixed_values[j] == old(self._fixed_values)[j]))"),
+            'other-entries-unchanged': ('property', "forall('j:Int', implies(j != self.all_des_vars.index(des_var), (j in self._fixed_values) == (j in old(self._fixed_values)) and implies(j in self._fixed_values, self._fixed_values[j] == old(self._fixed_values)[j])))"),
         },
         modifies=['self._fixed_values', 'self._comb_fixed_mask'],
         modifies_on_raise=[],     # a rejected fix leaves the processor unchanged
